@@ -231,20 +231,13 @@ Proof. vm_compute. reflexivity. Qed.
 Lemma vgte_37_30 v : vgte v 3 7 = true -> vgte v 3 0 = true.
 Proof. destruct v as [[x y] z]. unfold vgte, slippi_Version_gte, v0, v1. cbn [fst snd]. lia. Qed.
 
-(* The frames on which the hand model is stricter than the source: from 3.0 to before 3.7 the source never touches
-   self.end (the End record has no column there), the hand model demands it.  Frames produced by the parser, by
-   mutable::Frame::with_capacity and by from_struct_array always carry an End from 3.0 on. *)
-Definition end_present (v : version) (fr : frames) : Prop :=
-  vgte v 3 0 = true -> vgte v 3 7 = false -> f_end fr <> None.
-
-(* THE theorem: full equality, panics included (the unwrap sites are reached in the same order on both sides; the
-   generated per-record exports cannot panic where the order of two steps differs: arrow_struct_ungated / arrow_struct_end
-   of Proofs/C14Proof.v) *)
+(* THE theorem: full equality, panics included, for EVERY frame set -- also the ones no constructor of the crate produces
+   (from 3.0 to before 3.7 neither the source nor the hand model touches self.end, so a missing End goes unnoticed on both
+   sides).  The unwrap sites are reached in the same order on both sides: start, end (>= 3.7), item, item_offset *)
 Theorem arrow_frame_from_source v fr :
-  end_present v fr ->
   arrow_frame v fr = arrow_frame_tbl arrow_frame_data_type arrow_frame_into v fr.
 Proof.
-  intro Hend. unfold arrow_frame, arrow_frame_tbl, arrow_frame_data_type, arrow_frame_into.
+  unfold arrow_frame, arrow_frame_tbl, arrow_frame_data_type, arrow_frame_into.
   change (fun g : N * cdata * option cdata =>
             l <- arrow_data v "leader" (snd (fst g)) ;;
             f <- match snd g with
@@ -265,36 +258,36 @@ Proof.
   - destruct (f_start fr) as [srows|]; cbn [bind]; [|reflexivity].
     destruct (arrow_struct v "Start" "start" srows None) as [st| | |]; cbn [bind]; try reflexivity.
     destruct (vgte v 3 0) eqn:E30; cbn [andb].
-    + assert (Hitem : forall items, exists svi chi,
-                arrow_struct v "Item" "item" items None = Ok (AStruct "item" (length items) svi chi)).
-      { intro items. apply arrow_struct_ungated. cbn [In]. intuition. }
-      destruct (vgte v 3 7) eqn:E37; cbn [andb].
-      * destruct (f_end fr) as [erows|]; cbn [bind].
-        -- destruct (arrow_struct_end v "end" erows None E37) as (sve & che & He). rewrite He. cbn [bind].
-           destruct (f_item fr) as [items|]; cbn [bind].
-           ++ destruct (Hitem items) as (svi & chi & Hi). rewrite Hi. cbn [bind].
-              destruct (f_item_off fr) as [offs|]; cbn [bind app]; reflexivity.
-           ++ destruct (f_item_off fr); reflexivity.
-        -- reflexivity.
-      * destruct (f_end fr) as [erows|] eqn:Ee; [|exfalso; apply (Hend E30 E37); exact Ee].
-        destruct (f_item fr) as [items|]; cbn [bind].
-        -- destruct (Hitem items) as (svi & chi & Hi). rewrite Hi. cbn [bind].
-           destruct (f_item_off fr) as [offs|]; cbn [bind app]; reflexivity.
-        -- destruct (f_item_off fr); reflexivity.
+    + destruct (vgte v 3 7) eqn:E37; cbn [andb bind].
+      * destruct (f_end fr) as [erows|]; cbn [bind]; [|reflexivity].
+        destruct (arrow_struct v "End" "end" erows None) as [en| | |]; cbn [bind]; try reflexivity.
+        destruct (f_item fr) as [items|]; cbn [bind]; [|reflexivity].
+        destruct (arrow_struct v "Item" "item" items None) as [it| | |]; cbn [bind]; try reflexivity.
+        destruct (f_item_off fr) as [offs|]; cbn [bind app]; reflexivity.
+      * destruct (f_item fr) as [items|]; cbn [bind]; [|reflexivity].
+        destruct (arrow_struct v "Item" "item" items None) as [it| | |]; cbn [bind]; try reflexivity.
+        destruct (f_item_off fr) as [offs|]; cbn [bind app]; reflexivity.
     + cbn [app]. reflexivity.
   - assert (E30 : vgte v 3 0 = false).
     { destruct (vgte v 3 0) eqn:E; [|reflexivity]. apply vgte_30_22 in E. congruence. }
     reflexivity.
 Qed.
 
-(* the difference excluded by [end_present], made concrete: a 3.0 frame set without an End *)
+(* the corner on which an earlier, stricter hand model differed from the source, made concrete: a 3.0 frame set without an
+   End is exported all the same, by both sides, to the same tree (children id, ports, start, item); from 3.7 on both sides
+   panic at the unwrap of self.end *)
 Example arrow_frame_end_none :
-  let v : version := (3, 0, 0)%N in
   let fr := {| f_ids := []; f_chars := [{| sl_port := 0%N; sl_fol := false; sl_data := empty_cdata |}];
                f_start := Some []; f_end := None; f_item_off := Some [0%Z]; f_item := Some [] |} in
-  arrow_frame v fr = Panic 707 /\
-  exists t, arrow_frame_tbl arrow_frame_data_type arrow_frame_into v fr = Ok t.
-Proof. split; [vm_compute; reflexivity|]. eexists. vm_compute. reflexivity. Qed.
+  (exists n kids, arrow_frame (3, 0, 0)%N fr = Ok (AStruct "frame" n None kids) /\
+                  arrow_frame_tbl arrow_frame_data_type arrow_frame_into (3, 0, 0)%N fr = Ok (AStruct "frame" n None kids) /\
+                  map child_name kids = ["id"; "ports"; "start"; "item"]) /\
+  arrow_frame (3, 7, 0)%N fr = Panic 707 /\
+  arrow_frame_tbl arrow_frame_data_type arrow_frame_into (3, 7, 0)%N fr = Panic 707.
+Proof.
+  split; [eexists; eexists; split; [vm_compute; reflexivity|split; vm_compute; reflexivity]|].
+  split; vm_compute; reflexivity.
+Qed.
 
 (* the children of the export, from the data_type table alone: the names whose gates hold, in order *)
 Definition active_names (v : version) : list string :=
@@ -315,18 +308,20 @@ Proof.
       destruct (arrow_fields _ _ _ _ _ _) as [[ch ?]|]; [|discriminate]. destruct ch; [discriminate|].
       inversion Es. reflexivity. }
     destruct (vgte v 3 0) eqn:E30; cbn [andb].
-    + destruct (f_end fr) as [erows|]; [|discriminate].
-      destruct (f_item_off fr) as [offs|]; [|discriminate].
-      destruct (f_item fr) as [items|]; [|discriminate].
-      destruct (vgte v 3 7) eqn:E37; cbn [bind andb].
-      * destruct (arrow_struct v "End" "end" erows None) as [en| | |] eqn:Ee; cbn [bind]; try discriminate.
+    + destruct (vgte v 3 7) eqn:E37; cbn [bind andb].
+      * destruct (f_end fr) as [erows|]; [|discriminate].
+        destruct (arrow_struct v "End" "end" erows None) as [en| | |] eqn:Ee; cbn [bind]; try discriminate.
         assert (Hen : child_name en = "end").
         { unfold arrow_struct in Ee. destruct (assoc "End" tbl_data_type); [|discriminate].
           destruct (arrow_fields _ _ _ _ _ _) as [[ch ?]|]; [|discriminate]. destruct ch; [discriminate|].
           inversion Ee. reflexivity. }
+        destruct (f_item fr) as [items|]; [|discriminate].
         destruct (arrow_struct v "Item" "item" items None); cbn [bind]; try discriminate.
+        destruct (f_item_off fr) as [offs|]; [|discriminate].
         intro H. inversion H. cbn [map app child_name]. rewrite Hst, Hen. reflexivity.
-      * destruct (arrow_struct v "Item" "item" items None); cbn [bind]; try discriminate.
+      * destruct (f_item fr) as [items|]; [|discriminate].
+        destruct (arrow_struct v "Item" "item" items None); cbn [bind]; try discriminate.
+        destruct (f_item_off fr) as [offs|]; [|discriminate].
         intro H. inversion H. cbn [map app child_name]. rewrite Hst. reflexivity.
     + intro H. inversion H. cbn [map app child_name]. rewrite Hst. reflexivity.
   - intro H. inversion H. reflexivity.
